@@ -118,6 +118,11 @@ def r7_first_result_kept(ctx):
     cfg = Cfg(f)
     names = {int(k): v for k, v in f.get("names", {}).items()}
     bm = [l for l, n in names.items() if n == "best_move"]
+    if len(bm) > 1:
+        # shadowed: the one that is assigned Some(..) (the accepted iteration), i.e. has more than one definition
+        from ..expr import Exprs as _E
+        _ex = _E(f)
+        bm = [l for l in bm if len(_ex.defs.get(l, ())) >= 2] or bm[:1]
     if len(bm) != 1:
         ctx.lost(rid, "local `best_move` of Search::best_move")
         return
@@ -323,3 +328,88 @@ _run_before_r9 = run
 def run(ctx):
     _run_before_r9(ctx)
     r9_ordered_commands(ctx)
+
+
+def r10_answer_provenance(ctx):
+    """the move announced is the search's move"""
+    rid = "C07.R10"
+    ctx.rule(rid, "the move Search::best_move returns is taken from the local that holds the accepted iteration's search_negamax result and from nothing else: no fallback that picks a move the search's make / is_valid filter has not passed", floor=1)
+    from ..slice import Slicer
+    f = ctx.fn(rid, SEARCH + "best_move")
+    cfg, ex = Cfg(f), Exprs(f)
+    rets = []
+    for b in sorted(cfg.reach):
+        for s in f["blocks"][b]["stmts"]:
+            d = s["dst"]
+            if d is not None and d["l"] == 0 and not d["p"] and s["rv"]["op"] == "agg" and s["rv"].get("kind") == "tuple":
+                rets.append((b, s))
+    if len(rets) != 1:
+        ctx.lost(rid, "the tuple returned by Search::best_move (found %d)" % len(rets))
+        return
+    b, s = rets[0]
+    first = ex.operand(s["rv"]["a"][0])
+    prog = ctx.prog
+    allowed_tail = ("search_negamax", "move_into_uci_move", "and_then", "map", "clone", "copied", "cloned", "take", "filter", "calculate_principal_variation", "as_ref", "as_mut")
+    foreign, has_search = [], [False]
+
+    def closure_calls(ck):
+        g = prog.fns.get(ck)
+        out = []
+        if g is None:
+            return out
+        for blk in g["blocks"]:
+            t = blk["term"]
+            if not blk["cleanup"] and t["k"] == "call":
+                out.append(t["callee"].get("key") or "?")
+        return out
+
+    seen_locals = set()
+
+    def walk(t, depth=0):
+        if not isinstance(t, tuple) or depth > 12:
+            return
+        if t[0] == "call":
+            k = t[1]
+            tail = k.rsplit("::", 1)[-1]
+            if k == SEARCH + "search_negamax":
+                has_search[0] = True
+                return
+            if tail not in allowed_tail:
+                foreign.append(k)
+            for a_ in t[2]:
+                walk(a_, depth + 1)
+        elif t[0] == "agg":
+            if t[1] == "closure":
+                for ck in closure_calls(t[2]):
+                    if ck.rsplit("::", 1)[-1] not in allowed_tail:
+                        foreign.append(ck)
+            for a_ in t[3]:
+                walk(a_, depth + 1)
+        elif t[0] == "local":
+            if t[1] in seen_locals:
+                return
+            seen_locals.add(t[1])
+            for dfn in ex.defs.get(t[1], ()):
+                if dfn[0] == "stmt":
+                    walk(ex.rvalue(dfn[3]), depth + 1)
+                elif dfn[0] == "call":
+                    tt = dfn[3]
+                    walk(("call", tt["callee"].get("key") or "?", tuple(ex.operand(a_) for a_ in tt["args"]), ""), depth + 1)
+        elif t[0] in ("f", "*", "&", "dc", "cast", "un", "discr"):
+            walk(t[1] if t[0] != "cast" and t[0] != "un" else t[2], depth + 1)
+        elif t[0] == "bin":
+            walk(t[2], depth + 1)
+            walk(t[3], depth + 1)
+    walk(first)
+    ok = has_search[0] and not foreign
+    ctx.ob(rid, "best_move|answer-comes-from-the-search-only", ok,
+           "" if ok else ("the move returned by Search::best_move also comes from %s: a source of moves whose legality the search's make / is_valid filter has not established (a pseudo-legal move can be announced for a stalemated or pinned position)" % sorted(set(x.rsplit("::", 1)[-1] for x in foreign)) if foreign else "the returned move does not derive from search_negamax"),
+           ctx.where(f, s["line"]), sample={"expression": show(first)[:160]})
+
+
+_run_before_r10 = run
+
+
+def run(ctx):
+    _run_before_r10(ctx)
+    r10_answer_provenance(ctx)
